@@ -330,6 +330,31 @@ def targeted():
     return hs
 
 
+def policy_matrix():
+    """One mechanism used by several rules: the prototype as it is (P), a variant whose rule-level configuration leaves
+    key and validation alone (N), a variant with more lenient (L) and one with stricter (S) expressions / assertions.
+    Every ordered pair of variants, for a response that satisfies only L, L+P(+N), or all of them; the first variant is
+    asked again at the end."""
+    hs = []
+    for lvl in (1, 2, 3):
+        m = {"kind": "remoteAuthorizer", "id": "m1", "ep": {"url": g.SRV + "/authz", "method": "POST"},
+             "values": {"a": [("lit", "v")]}, "payload": [("lit", "lvl%d" % lvl)], "ttl": "10m", "fwd_resp": [], "expr": 2,
+             "overrides": [{"values": {"a": [("lit", "v")]}}, {"expr": 1}, {"expr": 3}]}
+        for x in range(4):
+            for y in range(4):
+                hs.append((m, [base_step(override=x), base_step(override=y), base_step(override=x)]))
+    for tok in ("tokA~s1", "tokA~s1+s2", "tokA~s1+s2+s3"):
+        for neutral in ({"allow_fallback_on_error": True}, {"cache_ttl": "7m"}):
+            m = {"kind": "introspection", "id": "m1", "ep": {"url": g.SRV + "/intro", "method": "POST"}, "ttl": "10m",
+                 "scopes": ["s1", "s2"],
+                 "overrides": [neutral, {"assertions": {"scopes": ["s1"]}}, {"assertions": {"scopes": ["s1", "s2", "s3"]}}]}
+            for x in range(4):
+                for y in range(4):
+                    hs.append((m, [base_step(override=x, headers={"X-Token": tok}), base_step(override=y, headers={"X-Token": tok}),
+                                   base_step(override=x, headers={"X-Token": tok})]))
+    return hs
+
+
 # -----------------------------------------------------------------------------------------------------------------
 # client credentials and the HTTP cache (no rule-level configuration: histories of plain requests)
 
@@ -513,10 +538,10 @@ def run(R):
     found += check_keys(R, exe, mk, stats, "mechanisms")
 
     # stream B
-    hist = [(c["mech"], c["steps"]) for c in chist] or targeted()
+    hist = ([(c["mech"], c["steps"]) for c in chist] or targeted()) + policy_matrix()
     n_t = len(hist)
     for _ in range(800 if quick else 18000):
-        hist.append(g.gen_history(R.rng, R.rng.choice(g.MECHS)))
+        hist.append(g.gen_history(R.rng, R.rng.choice(g.MECHS + ["remoteAuthorizer", "introspection"])))
     bad = run_histories(R, exe, hist, stats)
     for idx, v, impl, mo in pick(bad, hist, 10):
         m, steps = hist[idx]
